@@ -427,6 +427,12 @@ struct Value {
     void do_addr_to_spk() {
         // addresses are base58-check encoded, so we decode them first
         do_base58chkdec();
+        if (type != T_DATA || data.size() != 21 || data[0] != 0x00) {
+            // not a (mainnet) pay-to-pubkey-hash address: version byte 0x00 followed by a 20 byte hash
+            fprintf(stderr, "not a pay-to-pubkey-hash address\n");
+            data.clear();
+            return;
+        }
         // they are now prefixed with a 0x00; rip that out
         data.erase(data.begin());
         // wrap in appropriate script fluff
